@@ -51,6 +51,16 @@ func (k msgServer) AddFeeToDispute(goCtx context.Context,
 		msg.Amount.Amount = dispute.SlashAmount.Sub(dispute.FeeTotal)
 	}
 
+	// a payer that adds to the fee more than once is refunded on the sum of its payments
+	payerKey := collections.Join(dispute.DisputeId, sender.Bytes())
+	payerInfo, err := k.Keeper.DisputeFeePayer.Get(ctx, payerKey)
+	if err != nil {
+		if !errors.Is(err, collections.ErrNotFound) {
+			return nil, err
+		}
+		payerInfo = types.PayerInfo{Amount: math.ZeroInt()}
+	}
+
 	// Pay fee
 	if err := k.Keeper.PayDisputeFee(ctx, sender, msg.Amount, msg.PayFromBond, dispute.HashId); err != nil {
 		return nil, err
@@ -61,8 +71,8 @@ func (k msgServer) AddFeeToDispute(goCtx context.Context,
 		msg.Amount.Amount = fee
 	}
 	// dispute fee payer
-	if err := k.Keeper.DisputeFeePayer.Set(ctx, collections.Join(dispute.DisputeId, sender.Bytes()), types.PayerInfo{
-		Amount:   msg.Amount.Amount,
+	if err := k.Keeper.DisputeFeePayer.Set(ctx, payerKey, types.PayerInfo{
+		Amount:   payerInfo.Amount.Add(msg.Amount.Amount),
 		FromBond: msg.PayFromBond,
 	}); err != nil {
 		return nil, err
